@@ -5,6 +5,7 @@ use crate::mon::{guard, RecCrc, TableMgr};
 use crate::refcrc::{self, FastRef};
 use crate::report::Report;
 use crate::rng::{hex, hex_short, mix, Rng};
+use crate::sender::gen_chain;
 use crate::train::build_train;
 use crate::util::*;
 use crate::wire::{self, Kind, MandTable};
@@ -26,7 +27,7 @@ impl Property for C12 {
         "C12"
     }
     fn rule(&self) -> &'static str {
-        "anchor: external check value 0x0376E6E7 of '123456789'; bytepos: for a seeded random message (label length 0/3/6) every byte position of total length, protocol type, label and the first 64 PDU bytes takes all 256 values (each value selects a distinct table index at that position) and DefaultCrc is compared with a bit-serial reference; lengths: PDU lengths from the size lattice up to 65535; random: seeded messages; sender/receiver: fragment trains built by the real encapsulator with a recording CrcCalculator on both sides, trailer compared with the reference, receiver accepts iff trailer == reference. Non-trivial = the reference and the crate both produced a value and were compared; fingerprint = hash of the full CRC input (or of the train)."
+        "anchor: external check value 0x0376E6E7 of '123456789'; bytepos: for a seeded random message (label length 0/3/6) every byte position of total length, protocol type, label and the first 64 PDU bytes takes all 256 values (each value selects a distinct table index at that position) and DefaultCrc is compared with a bit-serial reference; lengths: PDU lengths from the size lattice up to 65535; random: seeded messages; sender/receiver: fragment trains built by the real encapsulator (one in three through encap_ext with an extension chain, incl. re-use substituted first fragments) with a recording CrcCalculator on both sides, trailer compared with the reference, receiver accepts iff trailer == reference. Non-trivial = the reference and the crate both produced a value and were compared; fingerprint = hash of the full CRC input (or of the train)."
     }
     fn gens(&self, cx: &Cx) -> Vec<Gen> {
         vec![
@@ -146,7 +147,12 @@ impl Property for C12 {
                 let kind = rng.below(N_LABEL_KINDS);
                 let label = gen_label(&mut rng, kind);
                 let substituted = label != Label::Broadcast && rng.chance(1, 3);
-                let ptype = gen_user_ptype(&mut rng);
+                // one transfer in three carries an extension chain (encap_ext)
+                let use_ext = rng.chance(1, 3);
+                let nchain = 1 + rng.below(3);
+                let chain_final = rng.chance(1, 4);
+                let chain = gen_chain(&mut rng, nchain, chain_final);
+                let ptype = if use_ext && chain_final { chain.entries.last().unwrap().id } else { gen_user_ptype(&mut rng) };
                 let plen = match rng.below(10) {
                     0 => rng.range(4096, 12000),
                     1 => rng.range(0, 3),
@@ -161,7 +167,7 @@ impl Property for C12 {
                 if substituted {
                     // previous complete packet with the same label so that the first fragment uses re-use
                     let mut b = vec![0u8; 64];
-                    match enc_guard(&mut enc, b"prime", 0, meta, &mut b) {
+                    match enc_guard(&mut enc, b"", 0, EncapMetadata::new(0x0800, label), &mut b) {
                         Ok(Ok(s)) => {
                             let (n, _) = status_parts(&s);
                             b.truncate(n);
@@ -178,7 +184,14 @@ impl Property for C12 {
                 let first_size = 13 + rng.below(std::cmp::max(1, max_first));
                 let mode = rng.below(3);
                 let mut r2 = rng.clone();
-                let tr = build_train(&mut enc, &pdu, frag_id, meta, None, |i| if i == 0 { first_size } else if mode == 0 { 4097 } else { 8 + r2.below(300) }, 4000);
+                let ext_extra = if use_ext { crate::wire::chain_extra_len(&chain.entries, chain_final) } else { 0 };
+                let first_size = first_size + ext_extra;
+                let crate_exts = if use_ext { chain.to_crate() } else { None };
+                if use_ext && crate_exts.is_none() {
+                    rep.count("train.chain-unconstructible");
+                    return;
+                }
+                let tr = build_train(&mut enc, &pdu, frag_id, meta, crate_exts, |i| if i == 0 { first_size } else if mode == 0 { 4097 } else { 8 + r2.below(300) }, 4000);
                 let tr = match tr {
                     Ok(t) if t.complete && t.pkts.len() >= 2 => t,
                     Ok(_) => {
@@ -190,7 +203,7 @@ impl Property for C12 {
                         return;
                     }
                 };
-                let table = MandTable::none();
+                let table = if use_ext { chain.table() } else { MandTable::none() };
                 let first = match wire::parse(&tr.pkts[0], &table) {
                     Ok(p) if p.kind == Kind::First => p,
                     _ => {
@@ -212,7 +225,10 @@ impl Property for C12 {
                 if gen == "sender" {
                     let calls = txcrc.take();
                     let lt = first.lt;
-                    let cls = format!("lt{}", lt);
+                    let cls = format!("lt{}{}", lt, if use_ext { "+ext" } else { "" });
+                    if use_ext {
+                        rep.count("sender.trains.ext");
+                    }
                     if substituted && lt != 3 {
                         rep.count("sender.no-substitution");
                     }
@@ -238,7 +254,9 @@ impl Property for C12 {
                     }
                 } else {
                     // receiver: feed the train, possibly with a corrupted trailer / payload
-                    let variant = rng.below(4); // 0 intact, 1 trailer bit flip, 2 payload bit flip (in end or first), 3 trailer replaced
+                    // 0 intact, 1 trailer bit flip, 2 payload bit flip (in end or first), 3 trailer replaced,
+                    // 4 trailer re-sealed with the REFERENCE CRC of the bytes (independent of the sender's trailer)
+                    let variant = rng.below(5);
                     let mut pkts = tr.pkts.clone();
                     let n = pkts.len();
                     match variant {
@@ -270,6 +288,10 @@ impl Property for C12 {
                             let l = pkts[n - 1].len();
                             let v = rng.next() as u32;
                             pkts[n - 1][l - 4..].copy_from_slice(&v.to_be_bytes());
+                        }
+                        4 => {
+                            let l = pkts[n - 1].len();
+                            pkts[n - 1][l - 4..].copy_from_slice(&want.to_be_bytes());
                         }
                         _ => {}
                     }
@@ -315,7 +337,10 @@ impl Property for C12 {
                     let want_rx = fr.gse(rx_first.total_len.unwrap(), rx_first.ptype.unwrap(), &rx_first.label, &rx_pdu);
                     let trailer_ok = rx_end.crc == Some(want_rx);
                     let calls = rxcrc.take();
-                    let cls = format!("lt{}:v{}", first.lt, variant);
+                    let cls = format!("lt{}{}:v{}", first.lt, if use_ext { "+ext" } else { "" }, variant);
+                    if use_ext {
+                        rep.count("receiver.trains.ext");
+                    }
                     for c in &calls {
                         if c.pdu != rx_pdu || c.ptype != rx_first.ptype.unwrap() || c.total_len != rx_first.total_len.unwrap() || c.label != rx_first.label {
                             rep.violation("C12", format!("receiver-args:{}", cls), || format!("decapsulator called the CRC calculator with (pdu {}B, type {:#06x}, total {:#06x}, label {}), expected (reassembled pdu {}B, {:#06x}, {:#06x}, label bytes on the wire {})", c.pdu.len(), c.ptype, c.total_len, hex(&c.label), rx_pdu.len(), rx_first.ptype.unwrap(), rx_first.total_len.unwrap(), hex(&rx_first.label)), replay);
@@ -344,7 +369,7 @@ impl Property for C12 {
                     rep.nontrivial(mix(want_rx as u64, variant as u64));
                     rep.count(&format!("receiver.variant{}", variant));
                     if key < 2 {
-                        rep.sample(|| format!("receiver: {} packets, variant {} (0 intact,1 trailer bit,2 payload bit,3 trailer replaced) -> {}", n, variant, dec_res_str(&last_res)));
+                        rep.sample(|| format!("receiver: {} packets, variant {} (0 intact,1 trailer bit,2 payload bit,3 trailer replaced,4 re-sealed with reference CRC) -> {}", n, variant, dec_res_str(&last_res)));
                     }
                 }
             }
@@ -352,7 +377,7 @@ impl Property for C12 {
         }
     }
     fn floors(&self, _cx: &Cx, rep: &mut Report) {
-        for k in ["sender.trains.lt0", "sender.trains.lt1", "sender.trains.lt2", "sender.trains.lt3", "receiver.accepted", "receiver.rejected"] {
+        for k in ["sender.trains.lt0", "sender.trains.lt1", "sender.trains.lt2", "sender.trains.lt3", "sender.trains.ext", "receiver.trains.ext", "receiver.accepted", "receiver.rejected", "receiver.variant4"] {
             if rep.get(k) == 0 {
                 rep.floors_missing.push(format!("C12 floor: counter {} is 0", k));
             }
